@@ -3,9 +3,9 @@ import sys
 
 from props import _cluster
 
-THEOREMS = ['XmlDiffModel.C03_empty_script_left_unchanged', 'XmlDiffModel.C03_empty_script_empty_text']
-PARTIAL = {'C03_equal_empty': 'NOT proved: equal documents yield [] under every option combination (needs the matcher to pair counterparts under assumptions on the similarity oracle); decided per run on the equal stream. Proved: an empty script leaves the working copy equal to L, and the diff formatter text is empty iff the script is'}
-LEAN_MODULES = ['XmlDiffModel.Props.C03']
+THEOREMS = ['XmlDiffModel.C03_different_documents_nonempty_script', 'XmlDiffModel.C03_empty_script_left_unchanged', 'XmlDiffModel.C03_empty_script_empty_text']
+PARTIAL = {'C03_equal_empty': 'proved: documents that differ as values never get an empty script (any size, every good matching and option set - corollary of the script-generation invariant), an empty script leaves the document unchanged and formats to the empty text. NOT proved: equal documents yield [] under every option combination (needs the matcher to pair counterparts under assumptions on the similarity oracle); decided per run on the equal stream.'}
+LEAN_MODULES = ['XmlDiffModel.Props.C01', 'XmlDiffModel.Props.C03']
 SOURCES = ['diff.Differ.match', 'diff.Differ.diff', 'diff.Differ.node_ratio', 'diff.Differ.leaf_ratio', 'diff.Differ.child_ratio', 'diff.Differ.node_text']
 RULE = "Differ cluster, streams 'equal' (a document against its copy, incl. many identical siblings / repeated subtrees / duplicate unique-attribute values, all option combinations) and 'main' (different documents): oracle = script empty iff documents equal under the property's equality. Non-trivial = document with >= 2 identical siblings or script with >= 2 action types; distinct by (L, R, options)."
 ASSUMPTIONS = [
